@@ -1257,6 +1257,21 @@ func stringScannerRuleSSA(r *Run, rule string) {
 					nRound++
 					k := window(p.evDecided[reads[last]], mk.nDecisions, readCallAt(last))
 					if !k.notQuote {
+						// a loop that tests at its head (read; for ch != quote { read }): the comparison of the byte just
+						// read is the first thing behind the way round, before any further cursor movement
+						hi := len(p.decisions)
+						for _, ei := range reads {
+							if ei >= mk.nEvents {
+								hi = p.evDecided[ei]
+								break
+							}
+						}
+						k2 := window(p.evDecided[reads[last]], hi, readCallAt(last))
+						if k2.notQuote || k2.isQuote {
+							k.notQuote = true
+						}
+					}
+					if !k.notQuote {
 						addBad("the loop goes round without having compared the current byte with the closing quote")
 					}
 				}
